@@ -1,4 +1,4 @@
-import IastModel.Lemmas.ErVisit
+import IastModel.Lemmas.ErOc
 namespace IastModel
 open Node
 
@@ -99,7 +99,7 @@ theorem tpl_kids (cfg : Config) (f : Nat) (r : Bool) (es qs : List Node) (s : St
   · exact hes
 
 /-- **the operation visitor's result erases to the node it was given** (no optional chain in the tree) -/
-theorem visit_VRes (cfg : Config) : ∀ (f : Nat) (root : Bool) (n : Node) (s : St), srcOk n = true → noOpt n = true →
+theorem visit_VRes (cfg : Config) : ∀ (f : Nat) (root : Bool) (n : Node) (s : St), srcOk n = true → noOpt cfg n = true →
     VRes root s (visit cfg f root n s).2 (visit cfg f root n s).1 n := by
   intro f
   induction f with
@@ -111,7 +111,7 @@ theorem visit_VRes (cfg : Config) : ∀ (f : Nat) (root : Bool) (n : Node) (s : 
     intro root n s hs hno
     have hsk := srcOk_kids hs
     have hnk := noOpt_kids hno
-    have hK : ∀ (r : Bool) (ks : List Node), (∀ k ∈ ks, srcOk k = true) → (∀ k ∈ ks, noOpt k = true) → ∀ s,
+    have hK : ∀ (r : Bool) (ks : List Node), (∀ k ∈ ks, srcOk k = true) → (∀ k ∈ ks, noOpt cfg k = true) → ∀ s,
         KRes r s (mapM' (visit cfg f r) ks s).2 (mapM' (visit cfg f r) ks s).1 ks :=
       fun r ks h1 h2 s => mapM'_KRes _ r ks (fun k hk s => ih r k s (h1 k hk) (h2 k hk)) s
     have gen : ∀ r, genK n = true →
@@ -124,7 +124,23 @@ theorem visit_VRes (cfg : Config) : ∀ (f : Nat) (root : Bool) (n : Node) (s : 
       simp only [visit, run_bind, run_pure, registerVariable, run_modify]
       exact VRes_src root _ _ _ hs rfl
     | block ss sp => simp only [visit, run_pure]; exact VRes_src root _ _ _ hs rfl
-    | optChain o b sp => rw [noOpt_eq] at hno; simp [noOptK] at hno
+    | optChain o b sp =>
+      -- not lowered under this configuration: the chain is handed back and its children are visited
+      simp only [visit, run_bind]
+      obtain ⟨hc1, hc2⟩ := toDdCond_id cfg f (.optChain o b sp) s hno
+      generalize toDdCond cfg f (.optChain o b sp) s = C at hc1 hc2 ⊢
+      obtain ⟨⟨e', res⟩, s1⟩ := C
+      simp only [Prod.mk.injEq] at hc1
+      obtain ⟨rfl, rfl⟩ := hc1
+      simp only [Option.getD_none]
+      rw [mapKidsM_run]
+      have hk := hK false _ hsk hnk s1
+      have hcnt : s1.counter = s.counter := hc2.1
+      have hv : EVC s.counter (mapM' (visit cfg f false) (Node.optChain o b sp).kids s1).2.counter
+          ((Node.optChain o b sp).withKids (mapM' (visit cfg f false) (Node.optChain o b sp).kids s1).1) (.optChain o b sp) := by
+        have := genAll_VC (.optChain o b sp) hs rfl _ _ _ hk.2
+        rwa [hcnt] at this
+      exact VRes_of_VC root s _ _ _ (by have := hk.1; dsimp only at this ⊢; omega) hv
     | arrow ps b at' sp =>
       simp only [visit, run_pure, toDdArrow]
       split
@@ -209,8 +225,8 @@ theorem visit_VRes (cfg : Config) : ∀ (f : Nat) (root : Bool) (n : Node) (s : 
         exact inertT_noBlk q (List.all_eq_true.mp hq q hq')
       have hses : ∀ k ∈ es, srcOk k = true := fun k hk => hsk k (by simp [kids, hk])
       have hsqs : ∀ k ∈ qs, srcOk k = true := fun k hk => hsk k (by simp [kids, hk])
-      have hnes : ∀ k ∈ es, noOpt k = true := fun k hk => hnk k (by simp [kids, hk])
-      have hnqs : ∀ k ∈ qs, noOpt k = true := fun k hk => hnk k (by simp [kids, hk])
+      have hnes : ∀ k ∈ es, noOpt cfg k = true := fun k hk => hnk k (by simp [kids, hk])
+      have hnqs : ∀ k ∈ qs, noOpt cfg k = true := fun k hk => hnk k (by simp [kids, hk])
       have tk := fun rr => tpl_kids cfg f rr es qs s hq (hK rr es hses hnes s) (fun s1 => hK rr qs hsqs hnqs s1)
       have hwk : ∀ rr, (Node.tpl es qs sp).withKids (mapM' (visit cfg f rr) (es ++ qs) s).1
           = .tpl (mapM' (visit cfg f rr) es s).1 qs sp := by
